@@ -260,7 +260,7 @@ func (e *env) run(m *model, w write) (hx.M, error) {
 		v := payVal(f, p.Zero, k)
 		if f.Key {
 			v = 2
-			if w.Op == "create" || w.Op == "create_map" || w.Op == "create_slice" {
+			if w.Op == "create" || w.Op == "create_map" || w.Op == "create_maps" || w.Op == "create_slice" {
 				v = 9
 				if p.Zero {
 					v = 0
@@ -309,6 +309,9 @@ func (e *env) run(m *model, w write) (hx.M, error) {
 		res = tx.Create(ptr.Interface())
 	case "create_map":
 		res = tx.Model(reflect.New(m.typ).Interface()).Create(pm)
+	case "create_maps":
+		// a slice of maps (batch create from maps)
+		res = tx.Model(reflect.New(m.typ).Interface()).Create(&[]map[string]interface{}{pm})
 	case "upsert":
 		res = tx.Clauses(clause.OnConflict{UpdateAll: true}).Create(pv.Interface())
 	default:
@@ -429,7 +432,7 @@ func subset(r *rand.Rand, names []string, p int) []string {
 }
 
 func randWrite(r *rand.Rand, m *model) write {
-	ops := []string{"updates_struct", "updates_map", "update", "ucols_struct", "ucols_map", "ucol", "save", "create", "create_slice", "create_map", "upsert"}
+	ops := []string{"updates_struct", "updates_map", "update", "ucols_struct", "ucols_map", "ucol", "save", "create", "create_slice", "create_map", "create_maps", "upsert"}
 	w := write{Op: ops[r.Intn(len(ops))], ColSpelling: r.Intn(2) == 0}
 	var names []string
 	for _, f := range m.fields {
@@ -452,7 +455,7 @@ func randWrite(r *rand.Rand, m *model) write {
 		if len(w.Pay) == 0 {
 			w.Pay = []payItem{{F: names[0]}}
 		}
-		if w.Op == "create_map" {
+		if w.Op == "create_map" || w.Op == "create_maps" {
 			w.Pay = append(w.Pay, payItem{F: "ID"})
 		}
 	}
@@ -465,13 +468,13 @@ func randWrite(r *rand.Rand, m *model) write {
 	if r.Intn(3) == 0 {
 		w.Omit = subset(r, names, 3)
 	}
-	if w.Op == "create_map" || w.Op == "create" || w.Op == "create_slice" || w.Op == "upsert" {
+	if w.Op == "create_map" || w.Op == "create_maps" || w.Op == "create" || w.Op == "create_slice" || w.Op == "upsert" {
 		w.Star = false
 	}
 	if w.Op == "upsert" { // a Select without the key would turn the upsert into a plain insert
 		w.Sel = nil
 	}
-	if w.Op == "create_map" { // a map key naming an ignored field makes gorm emit invalid SQL (observation, DESIGN section 7)
+	if w.Op == "create_map" || w.Op == "create_maps" { // a map key naming an ignored field makes gorm emit invalid SQL (observation, DESIGN section 7)
 		var keep []payItem
 		for _, p := range w.Pay {
 			if m.byName(p.F).Perm != "ignore" {
